@@ -34,7 +34,7 @@ data = json.loads(kf.read_text()) if kf.exists() else {"findings": [], "fixed": 
 frag_props = {f.stem for f in (V / "known_findings.d").glob("*.json")}
 # entries of a property that has a fragment come only from the fragment (no stale copies survive)
 byid = {x["id"]: x for x in data.get("findings", []) if x.get("property") not in frag_props}
-fixed = {json.dumps(x, sort_keys=True): x for x in data.get("fixed", [])}
+fixed = {}  # rebuilt from the fragments every time
 for f in sorted((V / "known_findings.d").glob("*.json")):
     d = json.loads(f.read_text())
     for x in d.get("findings", []):
